@@ -740,30 +740,63 @@ def iface_sexp(cid, iface, calls):
     return dump(["case", cid, "rest-iface"] + iface_forms(iface) + [["calls"] + cs])
 
 
+RETRY_N = 2
+# what the base transport answers before its 204 ('r' a 503 response, 'e' a transport error) x after which attempt the caller cancels
+RETRY_PLANS = [(f, c) for f in ("r", "e", "re", "er", "rr", "") for c in (-1, 0, 1) if c < len(f)]
+
+
+def retry_plan(i, c):
+    """the plan of call number i: a function of the call's content only (a replayed case gets the same one)"""
+    import zlib
+    return RETRY_PLANS[zlib.crc32(("%d|%s|%s" % (i, c["m"]["name"], "|".join(c["go"]))).encode()) % len(RETRY_PLANS)]
+
+
+CHAIN_POOL = ["shoot.Use(vrest.TagMW(1))", "shoot.Use(vrest.TagMW(2))", "shoot.EnableLogging(true)", "shoot.Timeout(30)",
+              "shoot.DefaultHeaders(map[string]string{})", "shoot.Use(middleware.LoggingMiddleware)"]
+
+
+def chain_opts(key, must):
+    """RestConf options of a client the request must not depend on: `must` plus a subset of CHAIN_POOL, in an order that is a function
+    of `key` (the interface) only, so that a replayed case builds the same client"""
+    import random
+    import zlib
+    r = random.Random(zlib.crc32(key.encode()))
+    opts = [o for o in CHAIN_POOL if r.random() < 0.55] + list(must)
+    r.shuffle(opts)
+    return opts
+
+
 def c06_oracle(pkg, iface, calls, modpath):
     n = iface["name"]
-    imports = ['"encoding/json"', '"net/http"', "", '"github.com/lopolopen/shoot"', '"verifcases/vrest"']
+    imports = ['"encoding/json"', '"net/http"', "", '"github.com/lopolopen/shoot"', '"github.com/lopolopen/shoot/middleware"', '"verifcases/vrest"']
     src = "\n".join(" ".join(c["go"]) + (c.get("json") or "") for c in calls)
     if "time." in src:
         imports.insert(0, '"time"')
     if "sub." in src:
         imports.append('"%s/sub"' % modpath)
+    ckey = iface["name"] + "|" + "|".join(m["name"] + ":" + m["path"] for m in iface["methods"])
     lines = ["package " + pkg, "", "import ("] + [("\t" + i) if i else "" for i in imports] + [")", "",
              "func verifJSON(v any) string {", "\tb, err := json.Marshal(v)", "\tif err != nil {", '\t\treturn "error:" + err.Error()', "\t}",
              "\treturn string(b)", "}", "",
              "func VerifObserve(emit func(string, string)) {",
              "\tsc := &vrest.Script{}",
              "\tc := shoot.NewRest[%s](shoot.BaseURL(%s)).ConfigHTTPClient(func(h *http.Client) { h.Transport = sc })" % (n, go_string(iface["base"])),
-             "\t// the same calls through a client whose chain is logging -> two pass-through middlewares -> recording base",
+             "\t// the same calls through a client with logging switched on and further options / pass-through middlewares (a function of the interface)",
              "\told := http.DefaultTransport", "\tscL := &vrest.Script{}", "\thttp.DefaultTransport = scL",
-             "\tcL := shoot.NewRest[%s](shoot.BaseURL(%s), shoot.Use(vrest.TagMW(1)), shoot.EnableLogging(true), shoot.Use(vrest.TagMW(2)), shoot.Timeout(30), shoot.DefaultHeaders(map[string]string{}))" % (n, go_string(iface["base"])),
+             "\tcL := shoot.NewRest[%s](%s)" % (n, ", ".join(["shoot.BaseURL(%s)" % go_string(iface["base"])] + chain_opts("L|" + ckey, ["shoot.EnableLogging(true)"]))),
+             "\t// ... and through a client whose chain contains RetryMiddleware(%d, 0) among such options: every attempt is observed" % RETRY_N,
+             "\tscR := &vrest.Script{}", "\thttp.DefaultTransport = scR",
+             "\tcR := shoot.NewRest[%s](%s)" % (n, ", ".join(["shoot.BaseURL(%s)" % go_string(iface["base"])] + chain_opts("R|" + ckey, ["shoot.Use(middleware.RetryMiddleware(%d, 0))" % RETRY_N]))),
              "\thttp.DefaultTransport = old"]
     for i, c in enumerate(calls):
         m = c["m"]
         call = "c.%s(%s)" % (m["name"], ", ".join(c["go"]))
+        fails, cancel_after = retry_plan(i, c)
+        c["retry"] = (fails, cancel_after)
         lhs = "_, _ = " if m["result"]["shape"] == "none" else "_, _, _ = "
         lines.append('\tvrest.ObserveRequest(emit, "c%d.", sc, func() { %s%s })' % (i, lhs, call))
         lines.append('\tvrest.ObserveRequest(emit, "L%d.", scL, func() { %sc%s })' % (i, lhs, "L" + call[1:]))
+        lines.append('\tvrest.ObserveAttempts(emit, "R%d", scR, "%s", %d, func() { %sc%s })' % (i, fails, cancel_after, lhs, "R" + call[1:]))
         if c.get("json"):
             lines.append('\temit("c%d.argjson", vrest.Quote(verifJSON(%s)))' % (i, c["json"]))
     lines.append("}")
